@@ -1152,8 +1152,15 @@ func (mpt *MerklePatriciaTrie) MergeDB(ndb NodeDB, root Key, deadNodes []Node) e
 	mpt.mutex.Lock()
 	defer mpt.mutex.Unlock()
 	handler := func(ctx context.Context, key Key, node Node) error {
-		_, _, err := mpt.insertNode(nil, node)
-		return err
+		// the trie refers to the merged nodes by the keys they have in ndb, so they must be
+		// stored as they are: insertNode would stamp them with this trie's version, which
+		// changes their hash and modifies the nodes held by ndb
+		if err := mpt.db.PutNode(key, node); err != nil {
+			return err
+		}
+		mpt.cache.Set(string(key), node)
+		mpt.ChangeCollector.AddChange(nil, node)
+		return nil
 	}
 	mpt.root = root
 	mpt.deleteNodes = append(mpt.deleteNodes, deadNodes...)
